@@ -1,0 +1,59 @@
+//go:build verif
+
+// Machine-checked contracts for package ros (comment-only; compiled only under the build tag "verif";
+// read by /verif/govc — see /verif/DESIGN.md §2.4).
+package ros
+
+/*@ func getUint32
+    safety C18
+    requires offset >= 0 && offset <= len(buf)
+    ensures err == nil ==> newoffset == offset + 4 && newoffset <= len(buf)
+@*/
+
+/*@ func headerToMap
+    safety C18
+    loop 1 invariant 0 <= offset && offset <= len(header)
+@*/
+
+/*@ func extractHeaderValue
+    safety C18
+    ensures r1 == nil ==> len(r0) <= len(header) && base(r0) == base(header)
+    loop 1 invariant 0 <= offset && offset <= len(header)
+@*/
+
+/*@ func rosTimeToNanoseconds
+    safety C18
+    requires len(time) >= 8
+    ensures result == le32at(time, 0) * 1000000000 + le32at(time, 4)
+@*/
+
+/*@ func channelIDForConnection
+    safety C18
+    ensures connID <= 65535 ==> r1 == nil && r0 == connID
+    ensures connID > 65535 ==> r1 != nil
+@*/
+
+/*@ func processBag
+    safety C18
+    requires r != nil && connectionCallback != nil && msgcallback != nil
+    loop 1 invariant len(buf) == 8 && len(header) > 0 && len(data) > 0 && len(chunkData) > 0 && activeReader != nil && baseReader != nil
+        && base(header) != base(data) && base(header) != base(chunkData) && base(data) != base(chunkData)
+        && base(buf) != base(header) && base(buf) != base(data) && base(buf) != base(chunkData)
+@*/
+
+/*@ func Bag2MCAP$1
+    safety C18
+    requires writer != nil && schemas != nil
+    requires wfWriter(writer) && wfIndexes(writer) && wfLists(writer) && okSinks(writer)
+@*/
+
+/*@ func Bag2MCAP$2
+    safety C18
+    requires writer != nil
+    requires wfWriter(writer) && wfIndexes(writer) && wfLists(writer) && okSinks(writer) && statsTimeInv(writer) && writer.Statistics.MessageCount < 18446744073709551615
+@*/
+
+/*@ func Bag2MCAP
+    safety C18
+    requires w != nil && r != nil && opts != nil && !failed(w)
+@*/
